@@ -110,6 +110,43 @@ def progress_points(facts, body, loop):
     return pts
 
 
+def reader_loop_progress(ctx, facts, cg, loops_seen, rule):
+    # B3 over every loop in reader-reachable bodies
+    for bid, (rb, seen) in sorted(loops_seen.items()):
+        b = facts.by_id[bid]
+        for be in back_edges(b, unwind=False):
+            tail, head = be
+            if b.is_cleanup(head):
+                continue
+            loop = loop_blocks(b, be, unwind=False)
+            pts = progress_points(facts, b, loop)
+            # a cycle head -> ... -> tail -> head avoiding all witnesses?
+            outside = [x for x in range(len(b.blocks)) if x not in loop]
+            r = reach(b, [Point(head, 0)], avoid=set(pts), avoid_blocks=outside)
+            tp = b.term_point(tail)
+            ok = tp not in r
+            what = "loop at %s" % b.term(head)["span"] if True else ""
+            if ok:
+                ctx.inst(rule, b, "loop@bb%d" % head, b.term(head)["span"], True,
+                         "witnesses: %s" % "; ".join(sorted(set(pts.values())))[:300])
+            else:
+                ctx.inst(rule, b, "loop@bb%d" % head, b.term(head)["span"], False,
+                         "a cycle through this loop only re-loads and re-tests shared state (no cursor advance, fresh CAS, private-state "
+                         "update or inner iterator); reachable from reader %s via %s" % (strip_generics(rb.id), " -> ".join(x[0] for x in cg.chain(seen, bid))),
+                         path=cg.chain(seen, bid))
+
+
+def rule_reader_loops(ctx, facts, rule):
+    """the progress rule on its own (used by C11 as D9): every loop reachable from a read entry point has a progress witness"""
+    cg = callgraph(facts)
+    loops_seen = {}
+    for rb in readers(facts):
+        seen = cg.reachable(rb.id)
+        for bid in seen:
+            loops_seen.setdefault(bid, (rb, seen))
+    reader_loop_progress(ctx, facts, cg, loops_seen, rule)
+
+
 def run(ctx, facts):
     ctx.rule("B1", "read entry points reach no retire/free and no shared write other than RMWs on TreeBin.lock_state", floor=30,
              floor_note="reader entry points on four facades + iterator types")
@@ -151,27 +188,5 @@ def run(ctx, facts):
             ctx.inst("B1", rb, "pure", rb.span, True, "%d bodies reachable, no write/retire/free" % len(seen))
         for bid in seen:
             loops_seen.setdefault(bid, (rb, seen))
-    # B3 over every loop in reader-reachable bodies
-    for bid, (rb, seen) in sorted(loops_seen.items()):
-        b = facts.by_id[bid]
-        for be in back_edges(b, unwind=False):
-            tail, head = be
-            if b.is_cleanup(head):
-                continue
-            loop = loop_blocks(b, be, unwind=False)
-            pts = progress_points(facts, b, loop)
-            # a cycle head -> ... -> tail -> head avoiding all witnesses?
-            outside = [x for x in range(len(b.blocks)) if x not in loop]
-            r = reach(b, [Point(head, 0)], avoid=set(pts), avoid_blocks=outside)
-            tp = b.term_point(tail)
-            ok = tp not in r
-            what = "loop at %s" % b.term(head)["span"] if True else ""
-            if ok:
-                ctx.inst("B3", b, "loop@bb%d" % head, b.term(head)["span"], True,
-                         "witnesses: %s" % "; ".join(sorted(set(pts.values())))[:300])
-            else:
-                ctx.inst("B3", b, "loop@bb%d" % head, b.term(head)["span"], False,
-                         "a cycle through this loop only re-loads and re-tests shared state (no cursor advance, fresh CAS, private-state "
-                         "update or inner iterator); reachable from reader %s via %s" % (strip_generics(rb.id), " -> ".join(x[0] for x in cg.chain(seen, bid))),
-                         path=cg.chain(seen, bid))
+    reader_loop_progress(ctx, facts, cg, loops_seen, "B3")
     ctx.note("readers: %s" % sorted(strip_generics(b.id) for b in rs))
